@@ -2,6 +2,7 @@ import Operon.Model.Proto
 import Operon.Model.Mito
 import Operon.Model.MitoWork
 import Operon.Model.MitoBox
+import Operon.Model.MitoSpec
 /-!
   Line-protocol driver shared by C01 and C02 (`Drv/C01.lean`, `Drv/C02.lean` only call `Mito.main`).
 
@@ -437,6 +438,15 @@ def step (st : DSt) (toks : List String) : DSt × String :=
         (truthyR env' v).bind fun b => R.pure (Val.bool b)
       let head := match r with | .ok v => "ok:" ++ showVal v | .error _ => "fail"
       (st, s!"{head} {showTrace tr} ## " ++ (match r with | .ok _ => "pyl:ok" | .error _ => "pyl:fail"))
+    | some none => (st, "fail {} ## py:syntax")
+    | none => (st, "bad-tree")
+  | "pyevt" :: _src :: tree =>
+    -- Python's evaluation of a tool-call text, the registered tools bound to their names (their bodies as registered now)
+    match parseTree tree with
+    | some (some e) =>
+      let (tr, r) := pyToolRun st.T.names (envOf st) st.cfg.tools e
+      let head := match r with | .ok v => "ok:" ++ showVal v | .error _ => "fail"
+      (st, s!"{head} {showTraceV st tr} ## " ++ (match r with | .ok _ => "pyt:ok" | .error _ => "pyt:fail"))
     | some none => (st, "fail {} ## py:syntax")
     | none => (st, "bad-tree")
   | ["cmet", forced, len, raw, low] =>
